@@ -13,8 +13,12 @@ from common import enc, dec
 from pyside import enc_list
 
 TRUSTED = ["sqlite ORDER BY: NULL < INTEGER < TEXT, BINARY collation = code point order of UTF-8 text; DESC binds to "
-           "the last ORDER BY term only (modelled in GffModel/Interface.lean)"]
-LEANCHECKER_MODULES = ["GffProofs.Props.C11"]
+           "the last ORDER BY term only (modelled in GffModel/Interface.lean)",
+           "sqlite semantics of the generated SQL subset as written down in GffModel/Sql.lean `eval` (affinity conversion of "
+           "TEXT parameters on INT columns, NULL never TRUE, DISTINCT on whole rows, nested-loop JOIN) and CPython's set "
+           "iteration order for small ints (`PySet`, used for the bin list) - validated against real sqlite / CPython by the "
+           "correspondence of every run, not proved"]
+LEANCHECKER_MODULES = ["GffProofs.Props.C11", "GffProofs.Props.C11Sql"]
 
 COLUMNS = ["seqid", "source", "featuretype", "start", "end", "score", "strand", "frame", "attributes", "extra",
            "file_order", "length"]
@@ -311,6 +315,10 @@ def run(ctx):
                 res.corr_disagreements.append((comp, inp[:900], m[:300], e[:300]))
     res.assumptions = ["descending order is claimed for a single order_by column only (for several columns DESC binds to "
                        "the last term, as the SQL says)", "order among ties is unspecified"]
+    # the SQL text layer (GffModel/Sql.lean): the text and arguments make_query / _relation / region hand to sqlite are the
+    # rendering of the model's AST, and its textbook evaluation returns what sqlite returns (correspondence only)
+    import sqltext
+    sqltext.run_sqltext(ctx, res)
     common.shrink_first_failure(res, lambda case: judge(ctx, case))
     return res
 
